@@ -216,7 +216,7 @@ func genReport(r *verifrt.Rand, canary string) (*synReport, []uint64, bool) {
 				f.PC = uint64(real) + delta
 			}
 			g.Frames = append(g.Frames, f)
-			if firstRunning < 0 && g.Status == "running" || firstRunning == gi {
+			if firstRunning < 0 && c14Running(g.Status) || firstRunning == gi {
 				firstRunning = gi
 				if f.HasPC {
 					pc := f.PC - delta
@@ -228,14 +228,11 @@ func genReport(r *verifrt.Rand, canary string) (*synReport, []uint64, bool) {
 				}
 			}
 		}
-		if firstRunning < 0 && strings.Contains(g.Status, "running") && g.Status != "running" {
-			// "running, locked to thread" does not match " [running]:" exactly
-		}
 		if r.Intn(3) == 0 {
 			g.Created = "created by main.start in goroutine 1"
 		}
 		rep.Gs = append(rep.Gs, g)
-		if g.Status == "running" && firstRunning < 0 {
+		if c14Running(g.Status) && firstRunning < 0 {
 			firstRunning = gi
 		}
 	}
@@ -243,6 +240,12 @@ func genReport(r *verifrt.Rand, canary string) (*synReport, []uint64, bool) {
 		return rep, nil, false
 	}
 	return rep, pcs, wellFormed && firstRunning >= 0
+}
+
+// c14Running: the goroutine was executing when the traceback was taken. The
+// runtime appends annotations to the status ("running, locked to thread").
+func c14Running(status string) bool {
+	return status == "running" || strings.HasPrefix(status, "running,")
 }
 
 func expectName(pcs []uint64) string {
@@ -345,7 +348,7 @@ func c14Synthetic(t *testing.T) {
 			kind := ""
 			firstRunning := -1
 			for gi, g := range vr.Gs {
-				if g.Status == "running" {
+				if c14Running(g.Status) {
 					firstRunning = gi
 					break
 				}
@@ -554,6 +557,16 @@ func TestVerifC14Crasher(t *testing.T) {
 		done := make(chan bool)
 		go func() { verifCrashA(strings.TrimPrefix(kind, "goroutine:")); close(done) }()
 		<-done
+	} else if strings.HasPrefix(kind, "locked:") {
+		// a goroutine wired to its thread (as the main goroutine is while the
+		// init functions run, or any goroutine driving a GUI or cgo library)
+		done := make(chan bool)
+		go func() {
+			runtime.LockOSThread()
+			verifCrashA(strings.TrimPrefix(kind, "locked:"))
+			close(done)
+		}()
+		<-done
 	} else {
 		verifCrashA(kind)
 	}
@@ -563,7 +576,7 @@ func TestVerifC14Crasher(t *testing.T) {
 func c14Real(t *testing.T) {
 	const check = "C14.real"
 	res := verifrt.NewResult(check)
-	res.Rule = "the test binary is re-executed with crashmonitor.Parent(file) installed and crashes through verifCrashA -> B -> C by: explicit panic, a panic whose multi-line error value quotes another traceback, nil dereference, nil map write, out-of-range index in an inlined callee, integer divide by zero, unlock of an unlocked mutex (fatal error), stack overflow, each also on a non-main goroutine; the captured report is named by telemetryCounterName in this process. Oracle: the name starts with crash/crash and lists verifCrashC, verifCrashB, verifCrashA in that order (innermost first), within the length and frame bounds. distinct = crash kinds"
+	res.Rule = "the test binary is re-executed with crashmonitor.Parent(file) installed and crashes through verifCrashA -> B -> C by: explicit panic, a panic whose multi-line error value quotes another traceback, nil dereference, nil map write, out-of-range index in an inlined callee, integer divide by zero, unlock of an unlocked mutex (fatal error), stack overflow, each also on a non-main goroutine and on a goroutine locked to its thread; the captured report is named by telemetryCounterName in this process. Oracle: the name starts with crash/crash and lists verifCrashC, verifCrashB, verifCrashA in that order (innermost first), within the length and frame bounds. distinct = crash kinds"
 	dir, _ := os.MkdirTemp(os.Getenv("VERIF_TMP"), "c14-")
 	defer os.RemoveAll(dir)
 	kinds := []string{"panic", "panic-quoting-traceback", "nilderef", "nilmap", "index-inlined", "divide", "unlock", "recursion"}
@@ -571,7 +584,7 @@ func c14Real(t *testing.T) {
 	ci := 0
 	for rep := 0; rep < reps; rep++ {
 		for _, base := range kinds {
-			for _, kind := range []string{base, "goroutine:" + base} {
+			for _, kind := range []string{base, "goroutine:" + base, "locked:" + base} {
 				ci++
 				if !verifrt.WantCase(check, ci) {
 					continue
